@@ -320,7 +320,10 @@ MANIFEST = {
             "navigator, editor and the API layer; its default key maps are regenerated from editor.cc/navigator.cc/selector.cc on "
             "every run, and the extracted model is diffed observation by observation against the real session API on two synthetic "
             "schemas. The buffer specification itself (extracted) is evaluated on the implementation for luna_pinyin and cangjie5 "
-            "with both editors.",
+            "with both editors.  Round 4: the chains of the theorem may carry ascii_composer in front of the processors and "
+            "ascii_segmentor in front of the segmentors (their stock positions; C05_edit_refines_buffer_ascii is the instance with "
+            "every mode-switch style bound), and the correspondence also runs on the schemas with ascii_composer, ascii_segmentor "
+            "and the key binder.",
     "note": "Closed under the global context (no axioms). Trusted: Coq kernel + vm_compute; gen/keymaps.py; the Gallina port of the "
             "engine (validated by differential testing, not proved against C++); ExtrOcamlBasic extraction and the OCaml/C++ glue. "
             "The theorem covers the engine core with the default speller options; non-interference of the stock schemas' other "
